@@ -7,7 +7,7 @@ after text round trip through the real reader, after re-sealing and after cosmet
 """
 from __future__ import annotations
 
-from vf.ob import HELD, SKIP, VIOL, rx_ob, select, xh_ob
+from vf.ob import HELD, SKIP, VIOL, pick, pickb, rx_ob, select, xh_ob
 
 PROP = "C15"
 META = {
@@ -204,7 +204,7 @@ def T_tamper(di: int, mi: int, via_text: bool) -> int:
     from octave_mcp.core.emitter import emit
     from octave_mcp.core.parser import parse
 
-    di, mi, via_text = realize(di), realize(mi), realize(via_text)
+    di, mi, via_text = pick(di, 4), pick(mi, 151), pickb(via_text)
     with NoTracing():  # concrete from here: the solver chose document, mutation and route
         doc = _docs()[di]()
         if sealer.verify_seal(doc).status is not sealer.SealStatus.NO_SEAL:
@@ -247,7 +247,7 @@ def H_hash_distinguishes_depth_and_text(k1: int, k2: int, ai: int, bi: int, via_
     from crosshair.core import realize
     from octave_mcp.core import sealer
 
-    k1, k2, ai, bi = realize(k1), realize(k2), realize(ai), realize(bi)
+    k1, k2, ai, bi = pick(k1, 4), pick(k2, 4), pick(ai, 6), pick(bi, 6)
     pool = ["", "x", " ", "\t", "x ", "\u212b"]
     a, b = pool[ai], pool[bi]
     rec = []
@@ -308,7 +308,7 @@ def T_cosmetic(ri: int) -> int:
     from octave_mcp.core.emitter import emit
     from octave_mcp.core.parser import parse_with_warnings
 
-    ri = realize(ri)
+    ri = pick(ri, 7)
     with NoTracing():
         text = emit(sealer.seal_document(_docs()[0]()))
         doc, _ = parse_with_warnings(RESPELL[ri](text))
